@@ -96,6 +96,8 @@ def with_value(val: dict, comp, x):
 def vectors(spec: NetSpec, d: int, bases=(0, 1), negatives=False):
     """Yields (label, value dict): the base vectors, all single excursions (d >= 1), all pair
     excursions (d >= 2)."""
+    if d < 0:
+        return
     comps = scalars(spec)
     for b in bases:
         base = base_vector(spec, b)
